@@ -4,6 +4,17 @@ from harness.drivers import contract, fermi
 
 
 def run(ck):
+    # Machine.tla: TLC checks Impl |= Props on the bounded instance and exports programs (spec -> code)
+    from vlib import machine
+    from harness import gen as _gen
+    _tids = _gen.Tids(100000)
+    mprogs = []
+    mprogs += machine.run_machine(ck, "Z2", "fermionic", "PoolZ2t", "OpsContract", rank=2, depth=3, mod=150, tids=_tids)
+    if ck.tier != "quick":
+        mprogs += machine.run_machine(ck, "U1", "fermionic", "PoolU1t", "OpsContract", rank=2, depth=3, mod=200, tids=_tids)
+    if ck.tier != "quick":
+        mprogs += machine.run_machine(ck, "Z2", "fermionic", "PoolZ2s", "OpsContract", rank=2, depth=3, mod=150, tids=_tids)
+    ck.conform(mprogs)
     q = ck.tier == "quick"
     tids = gen.Tids()
     syms = gen.STATIC_SYMS + ("Z4",)
